@@ -331,30 +331,33 @@ pub fn run(ctx: &mut Ctx) {
         for (j, t2) in texts.iter().enumerate() {
             for with_b in [false, true] {
                 for via_open in [false, true] {
-                    let fresh = tokens_for(t2);
-                    let mut s = MemSrv::new(None);
-                    if with_b {
-                        s.step(&did_open(URI_B, 1, texts[(j + 1) % texts.len()]));
-                    }
-                    s.step(&did_open(URI, 1, t1));
-                    let _ = request_tokens(&mut s, URI, 40);
-                    if via_open {
-                        s.step(&did_open(URI, 2, t2));
-                    } else {
-                        s.step(&did_change(URI, 2, &[t2]));
-                    }
-                    let got = request_tokens(&mut s, URI, 41);
-                    let got2 = request_tokens(&mut s, URI, 42);
-                    let _ = Box::new(s).finish();
-                    hist_cases += 1;
-                    ctx.transitions += 5;
-                    ctx.distinct(&format!("hist|{}|{}|{}|{}", i, j, with_b, via_open));
-                    if got != fresh || got2 != fresh {
-                        ctx.fail(
-                            &format!("tokens-depend-on-history/{}", if via_open { "didOpen-again" } else { "didChange" }),
-                            &format!("tokens after text{} -> text{} (other doc open: {}) differ from a fresh server's tokens for text{}", i, j, with_b, j),
-                            json!({"mode":"history","t1":t1,"t2":t2,"with_b":with_b,"via_open":via_open}),
-                        );
+                    // version numbers are the client's (a re-opened document starts at 1 again)
+                    for (v1, v2, vname) in [(1i64, 2i64, "increasing"), (5, 1, "decreasing"), (1, 1, "constant")] {
+                        let fresh = tokens_for(t2);
+                        let mut s = MemSrv::new(None);
+                        if with_b {
+                            s.step(&did_open(URI_B, 1, texts[(j + 1) % texts.len()]));
+                        }
+                        s.step(&did_open(URI, v1, t1));
+                        let _ = request_tokens(&mut s, URI, 40);
+                        if via_open {
+                            s.step(&did_open(URI, v2, t2));
+                        } else {
+                            s.step(&did_change(URI, v2, &[t2]));
+                        }
+                        let got = request_tokens(&mut s, URI, 41);
+                        let got2 = request_tokens(&mut s, URI, 42);
+                        let _ = Box::new(s).finish();
+                        hist_cases += 1;
+                        ctx.transitions += 5;
+                        ctx.distinct(&format!("hist|{}|{}|{}|{}|{}", i, j, with_b, via_open, vname));
+                        if got != fresh || got2 != fresh {
+                            ctx.fail(
+                                &format!("tokens-depend-on-history/{}{}", if via_open { "didOpen-again" } else { "didChange" }, if vname == "increasing" { String::new() } else { format!("/versions-{}", vname) }),
+                                &format!("tokens after text{} (version {}) -> text{} (version {}; other doc open: {}) differ from a fresh server's tokens for text{}", i, v1, j, v2, with_b, j),
+                                json!({"mode":"history","t1":t1,"t2":t2,"with_b":with_b,"via_open":via_open,"v1":v1,"v2":v2}),
+                            );
+                        }
                     }
                 }
             }
@@ -420,12 +423,13 @@ pub fn replay(case: &Value) -> Result<String, String> {
             if case["with_b"] == json!(true) {
                 s.step(&did_open(URI_B, 1, t1));
             }
-            s.step(&did_open(URI, 1, t1));
+            let (v1, v2) = (case["v1"].as_i64().unwrap_or(1), case["v2"].as_i64().unwrap_or(2));
+            s.step(&did_open(URI, v1, t1));
             let _ = request_tokens(&mut s, URI, 40);
             if case["via_open"] == json!(true) {
-                s.step(&did_open(URI, 2, t2));
+                s.step(&did_open(URI, v2, t2));
             } else {
-                s.step(&did_change(URI, 2, &[t2]));
+                s.step(&did_change(URI, v2, &[t2]));
             }
             let got = request_tokens(&mut s, URI, 41);
             if got == fresh {
